@@ -372,6 +372,9 @@ def classify_despawn(prog, body, b, t, n2):
                 nm = lib.tail(mir.fn_name(fr), 2) if fr else ""
                 if nm == "AutoDespawner::try_recv":
                     c = "gc-receiver"
+                elif lib.tail(nm, 1) == "try_recv" and any(f_[0].endswith("::AutoDespawner") and f_[1] == "receiver"
+                                                          for f_, ch_ in lib.receiver_chains(bd, bd.blocks[o[1]]["term"]["args"][0])):
+                    c = "gc-receiver"      # the collector reads the despawner's channel itself (try_recv helper inlined)
                 elif nm.endswith("AccessTracker::end"):
                     c = "payload-entity"
                 elif nm in ("ReactorHandle::sys_command", "AutoDespawnSignal::entity"):
